@@ -193,6 +193,9 @@ type GroupMapCase struct {
 	Maps    []map[string]string `json:"maps"`    // one map (or several for listmap); values as text
 	Order   []string            `json:"order"`   // url: parameter order
 	Rules   map[string]string   `json:"rules"`
+	// Dups: url: values of further occurrences of a parameter, placed right before its own
+	// occurrence (?a=&a=x): every occurrence is a member of the parameter's groups
+	Dups map[string][]string `json:"dups,omitempty"`
 }
 
 func genGroupMapCase(t *rapid.T) *GroupMapCase {
@@ -233,6 +236,14 @@ func genGroupMapCase(t *rapid.T) *GroupMapCase {
 		c.Maps = append(c.Maps, m)
 	}
 	c.Order = rapid.Permutation(keys).Draw(t, "order")
+	if (c.Carrier == "url" || c.Carrier == "urlenc") && rapid.IntRange(0, 3).Draw(t, "dups") == 2 {
+		c.Dups = map[string][]string{}
+		for _, key := range keys {
+			if _, ok := c.Maps[0][key]; ok && rapid.IntRange(0, 2).Draw(t, "dupKey") == 1 {
+				c.Dups[key] = []string{rapid.SampledFrom(pool).Draw(t, "dupVal")}
+			}
+		}
+	}
 	return c
 }
 
@@ -255,6 +266,9 @@ func (c *GroupMapCase) run() (string, bool, interface{}) {
 			var ps []string
 			for _, k := range c.Order {
 				if v, ok := c.Maps[0][k]; ok {
+					for _, d := range c.Dups[k] {
+						ps = append(ps, k+"="+d)
+					}
 					ps = append(ps, k+"="+v)
 				}
 			}
@@ -308,15 +322,21 @@ func (c *GroupMapCase) expect() (res *model.Result, verdicts []string) {
 		}
 		sort.Strings(items)
 		for _, item := range items {
-			mem := groups[item]
-			sort.Strings(mem)
+			keysOf := groups[item]
+			sort.Strings(keysOf)
 			kind, _, _ := model.ParseItem(item)
-			var names []string
-			for _, k := range mem {
-				names = append(names, name(k))
+			// the members: one per occurrence of a key (a URL may hold a parameter more than once)
+			var names, vals []string
+			for _, k := range keysOf {
+				if c.Carrier == "url" || c.Carrier == "urlenc" {
+					for _, d := range c.Dups[k] {
+						names, vals = append(names, name(k)), append(vals, d)
+					}
+				}
+				names, vals = append(names, name(k)), append(vals, m[k])
 			}
 			res.GroupObjs[fmt.Sprint(i)]++
-			if len(mem) == 1 {
+			if len(names) == 1 {
 				res.Groups = append(res.Groups, model.Exp{Kind: "single", Path: names[0], Members: names, GKind: kind, Item: item})
 				res.Violations++
 				verdicts = append(verdicts, "single")
@@ -325,14 +345,14 @@ func (c *GroupMapCase) expect() (res *model.Result, verdicts []string) {
 			bad := false
 			if kind == "either" {
 				bad = true
-				for _, k := range mem {
-					if m[k] != zero {
+				for _, v := range vals {
+					if v != zero {
 						bad = false
 					}
 				}
 			} else {
-				for _, k := range mem[1:] {
-					if m[k] != m[mem[0]] {
+				for _, v := range vals[1:] {
+					if v != vals[0] {
 						bad = true
 					}
 				}
@@ -429,6 +449,9 @@ func TestC17(t *testing.T) {
 				}
 			}
 			ev.Class("carrier=" + c.Carrier)
+			if len(c.Dups) > 0 {
+				ev.Class("mapurl:url-parameter-occurs-twice")
+			}
 			for _, v := range verdicts {
 				ev.Class("mapurl:verdict=" + v)
 			}
